@@ -585,66 +585,130 @@ func ruleImportIDOrder(c *core.Ctx) {
 	}
 	info := d.Pkg.TypesInfo
 	key := declKey(d)
-	var check *ast.IfStmt
-	ast.Inspect(d.Decl.Body, func(x ast.Node) bool {
-		is, ok := x.(*ast.IfStmt)
-		if !ok {
-			return true
+	scope := fnScope(c, d, 1)
+	// position, in Import itself, of something found in the scope
+	rootPos := func(sc scopedCall) token.Pos {
+		if sc.D == d {
+			return sc.Call.Pos()
 		}
-		// lastLogID != nil && *log.ID <= *lastLogID
-		var parts []string
-		var split func(e ast.Expr)
-		split = func(e ast.Expr) {
-			e = ast.Unparen(e)
-			if be, ok := e.(*ast.BinaryExpr); ok && be.Op == token.LAND {
-				split(be.X)
-				split(be.Y)
-				return
+		for _, site := range callsTo(info, d.Decl.Body, func(f *types.Func) bool { return f == sc.D.Obj || f.Origin() == sc.D.Obj }) {
+			return site.Pos()
+		}
+		return token.NoPos
+	}
+	rejects := scopeCalls(scope, named("NewErrImport"))
+	imports := scopeCalls(scope, named("importLog"))
+	// ---- an id not greater than the last one is refused before the log is imported ----------------
+	lastVar := ""
+	var orderReject *scopedCall
+	wrongOp, opaque := "", false
+	for i, sc := range rejects {
+		fs, complete := scopeFacts(d, sc)
+		opaque = opaque || !complete || factsOpaque(c, info, fs)
+		for _, ft := range fs {
+			be, ok := ft.Cond.(*ast.BinaryExpr)
+			if !ok {
+				continue
 			}
-			parts = append(parts, types.ExprString(e))
-		}
-		split(is.Cond)
-		sort.Strings(parts)
-		if eqStrings(parts, []string{"*log.ID <= *lastLogID", "lastLogID != nil"}) && len(callsTo(info, is.Body, named("NewErrImport"))) == 1 && astx.Terminates(info, is.Body.List) {
-			check = is
-		}
-		return true
-	})
-	imp := callsTo(info, d.Decl.Body, named("importLog"))
-	c.Check(check != nil && len(imp) == 1 && check.End() < imp[0].Pos(), "DOM/import-id-order", key+":reject-non-increasing", pos(c, d.Decl), "log.ID <= last ⇒ ErrImport, before importLog", "Import must refuse (ErrImport) any log whose id is not strictly greater than the last log of the ledger / of the stream, before importing it")
-	// lastLogID seeded from the newest existing log and advanced per element
-	seeded, advanced := false, false
-	ast.Inspect(d.Decl.Body, func(x ast.Node) bool {
-		if as, ok := x.(*ast.AssignStmt); ok && len(as.Lhs) == 1 && astx.SelectorPath(as.Lhs[0]) == "lastLogID" {
-			r := astx.ExprString(as.Rhs[0])
-			if strings.Contains(r, "logs.Data[0].ID") {
-				seeded = true
+			op := be.Op
+			if !ft.Positive {
+				switch op {
+				case token.LEQ:
+					op = token.GTR
+				case token.LSS:
+					op = token.GEQ
+				case token.GEQ:
+					op = token.LSS
+				case token.GTR:
+					op = token.LEQ
+				default:
+					continue
+				}
 			}
-			if r == "log.ID" {
-				advanced = true
+			x, y := nospace(types.ExprString(be.X)), nospace(types.ExprString(be.Y))
+			// normalise to "<id of the incoming log> op <last id>"
+			if !strings.HasSuffix(x, ".ID") && strings.HasSuffix(y, ".ID") {
+				x, y = y, x
+				switch op {
+				case token.LEQ:
+					op = token.GEQ
+				case token.GEQ:
+					op = token.LEQ
+				case token.LSS:
+					op = token.GTR
+				case token.GTR:
+					op = token.LSS
+				}
+			}
+			if !strings.HasPrefix(x, "*") || !strings.HasSuffix(x, ".ID") || !strings.HasPrefix(y, "*") {
+				continue
+			}
+			switch op {
+			case token.LEQ:
+				lastVar = strings.TrimPrefix(y, "*")
+				orderReject = &rejects[i]
+			case token.LSS, token.GTR, token.GEQ, token.EQL, token.NEQ:
+				if ft.Positive || be.Op != token.EQL { // the `==` twin of a `!=` fact is not a comparison of its own
+					wrongOp = types.ExprString(be)
+				}
 			}
 		}
-		return true
-	})
-	c.Check(seeded && advanced, "DOM/import-id-order", key+":last-id-tracking", pos(c, d.Decl), "seeded from the newest stored log, advanced per imported log", "the last log id is not seeded from the ledger's newest log and advanced with each imported log")
-	// conflict mapping
-	mapped := false
-	ast.Inspect(d.Decl.Body, func(x ast.Node) bool {
-		cc, ok := x.(*ast.CaseClause)
-		if !ok {
-			return true
+	}
+	failMsg := "Import must refuse (ErrImport) any log whose id is not strictly greater than the last log of the ledger / of the stream, before importing it"
+	switch {
+	case orderReject != nil:
+		before := len(imports) > 0
+		for _, im := range imports {
+			before = before && rootPos(*orderReject) < rootPos(im)
 		}
-		var names []string
-		for _, e := range cc.List {
-			names = append(names, errNamesOfCase(info, e)...)
-		}
-		s := strings.Join(names, " ")
-		if strings.Contains(s, "ErrSerialization") && strings.Contains(s, pkgStore+".ErrConcurrentTransaction") && len(callsTo(info, cc, named("NewErrImport"))) == 1 {
-			mapped = true
-		}
-		return true
-	})
-	c.Check(mapped, "DOM/import-conflict-mapped", key, pos(c, d.Decl), "serialization failure / duplicate transaction id ⇒ ErrImport", "a concurrent write detected during import (serialization failure or ErrConcurrentTransaction) is no longer reported as ErrImport")
+		c.Check(before, "DOM/import-id-order", key+":reject-non-increasing", pos(c, orderReject.Call), "log.ID <= last ⇒ ErrImport, before importLog", failMsg)
+	case wrongOp != "":
+		c.Fail("DOM/import-id-order", key+":reject-non-increasing", pos(c, d.Decl), failMsg+" (the refusal tests `"+wrongOp+"`)")
+	case opaque:
+		c.Unrecognised("DOM/import-id-order", key+":reject-non-increasing", pos(c, d.Decl), "the refusals of Import are guarded by conditions the rule does not read")
+	default:
+		c.Fail("DOM/import-id-order", key+":reject-non-increasing", pos(c, d.Decl), failMsg)
+	}
+	// ---- the last id is seeded from the newest stored log and advanced per imported log -----------
+	if lastVar == "" {
+		c.Unrecognised("DOM/import-id-order", key+":last-id-tracking", pos(c, d.Decl), "the variable holding the last log id was not identified")
+	} else {
+		seeded, advanced := false, false
+		inScope(scope, func(sd *astx.DeclInfo) {
+			ast.Inspect(sd.Decl.Body, func(x ast.Node) bool {
+				switch l := x.(type) {
+				case *ast.AssignStmt:
+					if len(l.Lhs) == 1 && len(l.Rhs) == 1 && nospace(types.ExprString(l.Lhs[0])) == lastVar && strings.Contains(nospace(types.ExprString(l.Rhs[0])), ".Data[0].ID") {
+						seeded = true
+					}
+				case *ast.ForStmt, *ast.RangeStmt:
+					ast.Inspect(l, func(y ast.Node) bool {
+						if as, ok := y.(*ast.AssignStmt); ok && len(as.Lhs) == 1 && len(as.Rhs) == 1 && nospace(types.ExprString(as.Lhs[0])) == lastVar && strings.HasSuffix(nospace(types.ExprString(as.Rhs[0])), ".ID") {
+							advanced = true
+						}
+						return true
+					})
+				}
+				return true
+			})
+		})
+		c.Check(seeded && advanced, "DOM/import-id-order", key+":last-id-tracking", pos(c, d.Decl), "seeded from the newest stored log, advanced per imported log", "the last log id is not seeded from the ledger's newest log and advanced with each imported log")
+	}
+	// ---- conflict mapping --------------------------------------------------------------------------
+	var names []string
+	opaque = false
+	for _, sc := range rejects {
+		fs, complete := scopeFacts(d, sc)
+		opaque = opaque || !complete || factsOpaque(c, info, fs)
+		names = append(names, errNamesOfFacts(info, fs, true)...)
+	}
+	joined := strings.Join(names, " ")
+	mapped := strings.Contains(joined, "ErrSerialization") && strings.Contains(joined, pkgStore+".ErrConcurrentTransaction")
+	if !mapped && opaque {
+		c.Unrecognised("DOM/import-conflict-mapped", key, pos(c, d.Decl), "the refusals of Import are guarded by conditions the rule does not read")
+	} else {
+		c.Check(mapped, "DOM/import-conflict-mapped", key, pos(c, d.Decl), "serialization failure / duplicate transaction id ⇒ ErrImport", "a concurrent write detected during import (serialization failure or ErrConcurrentTransaction) is no longer reported as ErrImport")
+	}
 }
 
 func ruleStateTransition(c *core.Ctx) {
@@ -778,28 +842,62 @@ func ruleImportHashVerified(c *core.Ctx) {
 		return
 	}
 	info := d.Pkg.TypesInfo
-	ok := false
-	ast.Inspect(d.Decl.Body, func(x ast.Node) bool {
-		is, isIf := x.(*ast.IfStmt)
-		if !isIf {
-			return true
-		}
-		ft := astx.AsFeatureTest(info, is.Cond)
-		if ft == nil || ft.Feature != "HASH_LOGS" || ft.Value != "SYNC" {
-			return true
-		}
-		if len(callsTo(info, is.Body, named("newErrInvalidHash"))) == 1 {
-			// inner if compares log.Hash with the copy taken before InsertLog
-			ast.Inspect(is.Body, func(y ast.Node) bool {
-				if in, isIf2 := y.(*ast.IfStmt); isIf2 && strings.Contains(types.ExprString(in.Cond), "DeepEqual(log.Hash, logCopy.Hash)") && astx.Terminates(info, in.Body.List) {
-					ok = true
-				}
-				return true
-			})
-		}
-		return true
-	})
+	key := declKey(d)
+	scope := fnScope(c, d, 1)
+	envs := map[*astx.DeclInfo]*originEnv{}
+	for _, e := range scopeEnvs(c, d) {
+		envs[e.d] = e
+	}
 	ins := callsTo(info, d.Decl.Body, named("InsertLog"))
-	c.Check(ok && len(ins) == 1, "DOM/import-hash-verified", declKey(d), pos(c, d.Decl), "HASH_LOGS=SYNC ⇒ stored hash compared with the exported hash", "importLog no longer compares the hash computed on insert with the hash carried by the imported log under HASH_LOGS=SYNC")
+	rejects := scopeCalls(scope, named("newErrInvalidHash"))
+	failMsg := "importLog no longer compares the hash computed on insert with the hash carried by the imported log under HASH_LOGS=SYNC"
+	if len(rejects) == 0 || len(ins) == 0 {
+		c.Fail("DOM/import-hash-verified", key, pos(c, d.Decl), failMsg)
+		return
+	}
+	ok, opaque, wrongFeature := false, false, false
+	for _, sc := range rejects {
+		fs, complete := scopeFacts(d, sc)
+		opaque = opaque || !complete
+		sync, compared := false, false
+		env := envs[sc.D]
+		for _, ft := range fs {
+			if t := astx.AsFeatureTest(info, ft.Cond); t != nil && t.Feature == "HASH_LOGS" {
+				if t.Value == "SYNC" && ft.Positive {
+					sync = true
+				} else {
+					wrongFeature = true
+				}
+				continue
+			}
+			// !DeepEqual(a, b) / !bytes.Equal(a, b) on two hashes
+			call, isCall := ft.Cond.(*ast.CallExpr)
+			if !isCall || ft.Positive || len(call.Args) != 2 || env == nil {
+				continue
+			}
+			f := astx.Callee(info, call)
+			if f == nil || (f.Name() != "DeepEqual" && f.Name() != "Equal") {
+				continue
+			}
+			a0, a1 := env.origin(call.Args[0]), env.origin(call.Args[1])
+			if strings.HasSuffix(a0, ".Hash") && strings.HasSuffix(a1, ".Hash") && nospace(types.ExprString(call.Args[0])) != nospace(types.ExprString(call.Args[1])) {
+				compared = true
+			}
+		}
+		if sync && compared && rootPosOf(d, sc.D, sc.Call.Pos()) > ins[0].Pos() {
+			ok = true
+		}
+		opaque = opaque || factsOpaque(c, info, fs)
+	}
+	switch {
+	case ok:
+		c.Pass("DOM/import-hash-verified", key, pos(c, d.Decl), "HASH_LOGS=SYNC ⇒ stored hash compared with the exported hash")
+	case wrongFeature:
+		c.Fail("DOM/import-hash-verified", key, pos(c, d.Decl), failMsg+" (the comparison is under another HASH_LOGS test)")
+	case opaque:
+		c.Unrecognised("DOM/import-hash-verified", key, pos(c, d.Decl), "the hash rejection is guarded by conditions the rule does not read")
+	default:
+		c.Fail("DOM/import-hash-verified", key, pos(c, d.Decl), failMsg)
+	}
 	_ = load.Module
 }
